@@ -59,6 +59,13 @@ class Arr:
         self.writes.append((k, v, node))
 
 
+class Vec(list):
+    """1-d numpy array of known length: elementwise arithmetic, slicing"""
+    def __getitem__(self, i):
+        r = list.__getitem__(self, i)
+        return Vec(r) if isinstance(i, slice) else r
+
+
 class Obj:
     def __init__(self, cls=None, attrs=None, name='obj', default=None):
         self.cls = cls; self.attrs = dict(attrs or {}); self.name = name; self.default = default
@@ -605,6 +612,11 @@ class Interp:
         # concrete integer / rational arithmetic stays concrete
         if isinstance(a, bool): a = int(a)
         if isinstance(b, bool): b = int(b)
+        if isinstance(a, Vec) or isinstance(b, Vec):
+            n = len(a) if isinstance(a, Vec) else len(b)
+            if isinstance(a, Vec) and isinstance(b, Vec) and len(a) != len(b):
+                raise AnalysisError(f'array length mismatch {len(a)} vs {len(b)}')
+            return Vec([self.binop(op, a[i] if isinstance(a, Vec) else a, b[i] if isinstance(b, Vec) else b, e, fr) for i in range(n)])
         if isinstance(a, (tuple, list)) and isinstance(b, (tuple, list)) and isinstance(op, ast.Add):
             return type(a)(list(a) + list(b))
         if isinstance(a, str) and isinstance(op, (ast.Add, ast.Mod)):
@@ -674,7 +686,13 @@ class Interp:
             for v in e.values:
                 r = self.eval(v, fr)
                 if isinstance(r, Node) and concrete(r) is None:
-                    raise AnalysisError(f'{fr.mod.where(e)}: symbolic `or`')
+                    try:
+                        if self.truth(r, ast.If(test=v, body=[], orelse=[], lineno=getattr(v, 'lineno', 0)), fr):
+                            return True
+                        r = False
+                        continue
+                    except AnalysisError:
+                        raise AnalysisError(f'{fr.mod.where(e)}: symbolic `or`')
                 if self.truth(r, e, fr):
                     return r
             return r
@@ -761,7 +779,23 @@ class Interp:
         return slice(self.eval(e.lower, fr) if e.lower else None, self.eval(e.upper, fr) if e.upper else None,
                      self.eval(e.step, fr) if e.step else None)
 
-    def e_JoinedStr(self, e, fr): return '<fstring>'
+    def e_JoinedStr(self, e, fr):
+        out = ''
+        for v in e.values:
+            if isinstance(v, ast.Constant):
+                out += str(v.value)
+            else:
+                try:
+                    val = self.eval(v.value, fr)
+                except AnalysisError:
+                    return '<fstring>'
+                if isinstance(val, (str, int)) and not isinstance(val, bool):
+                    out += str(val)
+                elif isinstance(val, tuple) and all(isinstance(t, int) for t in val):
+                    out += str(val)
+                else:
+                    return '<fstring>'
+        return out
     def e_Lambda(self, e, fr): return ('lambda', e, fr)
 
     def e_ListComp(self, e, fr):
@@ -831,6 +865,10 @@ class Interp:
             if a == 'lower': return s.lower()
             if a == 'upper': return s.upper()
             if a == 'strip': return s.strip()
+            if a == 'split': return s.split(*[x for x in args if isinstance(x, (str, int))])
+            if a == 'startswith': return s.startswith(args[0])
+            if a == 'endswith': return s.endswith(args[0])
+            if a == 'replace': return s.replace(args[0], args[1])
         if isinstance(f, tuple) and f and f[0] == 'class':
             hc = self.hooks.get('construct')
             if hc is not None:
@@ -857,6 +895,8 @@ class Interp:
         if nm in ('float', 'complex128', 'float64', 'asarray', 'array', 'ascontiguousarray', 'copy', '__cast__'):
             if nm == '__cast__':
                 return Builtin('__cast__')
+            if nm in ('asarray', 'array') and isinstance(args[0], (list, tuple)) and not isinstance(args[0], Vec) and all(is_num(v) for v in args[0]):
+                return Vec(args[0])
             return args[0]
         if nm == 'int':
             c = concrete(args[0])
@@ -873,6 +913,27 @@ class Interp:
             return tuple(args[0]) if nm == 'tuple' else list(args[0])
         if nm == 'dict':
             return dict(kwargs) if not args else dict(args[0])
+        if nm in ('zeros_like', 'ones_like') and args and isinstance(args[0], Vec):
+            return Vec([X.ZERO if nm == 'zeros_like' else X.ONE for _ in args[0]])
+        if nm == 'linspace':
+            n = args[2] if len(args) > 2 else kwargs.get('num')
+            n = concrete(n)
+            if not isinstance(n, int) or n < 2:
+                raise AnalysisError('linspace with a non-constant point count')
+            a0, a1 = to_node(args[0]), to_node(args[1])
+            if kwargs.get('endpoint', True) is False:
+                return Vec([X.add(a0, X.mul(X.const(Fraction(k, n)), X.add(a1, X.neg(a0)))) for k in range(n)])
+            return Vec([X.add(a0, X.mul(X.const(Fraction(k, n - 1)), X.add(a1, X.neg(a0)))) for k in range(n)])
+        if nm == 'concatenate':
+            out = Vec()
+            for v in args[0]:
+                out.extend(v)
+            return out
+        if nm in ('asarray', 'array') and args and isinstance(args[0], (list, tuple)):
+            return Vec(args[0])
+        if nm == 'deepcopy':
+            import copy as _copy
+            return _deepcopy(args[0])
         if nm in ('zeros_like',):
             return X.ZERO if not isinstance(args[0], Arr) else Arr('zeros', default=lambda k: X.ZERO)
         if nm in ('ones_like',):
@@ -885,6 +946,8 @@ class Interp:
             return Arr(nm, default=(lambda k: X.ZERO) if nm == 'zeros' else None, shape=shp)
         if nm == 'prange':
             return self.builtin('range', args, kwargs, e, fr)
+        if (nm in UNARY_FUNCS or nm in NP_ALIASES) and args and isinstance(args[0], Vec):
+            return Vec([self.builtin(name, [v], kwargs, e, fr) for v in args[0]])
         if (nm in UNARY_FUNCS or nm in NP_ALIASES) and args and isinstance(args[0], Arr):
             base = args[0]
             t = NP_ALIASES.get(nm, nm)
@@ -945,6 +1008,14 @@ class Interp:
         if nm in ('isnan', 'isinf', 'isfinite') and args and concrete(args[0]) is not None:
             return nm == 'isfinite'
         raise AnalysisError(f'{fr.mod.where(e)}: unmodelled builtin `{name}`')
+
+
+def _deepcopy(v):
+    if isinstance(v, dict): return {k: _deepcopy(x) for k, x in v.items()}
+    if isinstance(v, Vec): return Vec([_deepcopy(x) for x in v])
+    if isinstance(v, list): return [_deepcopy(x) for x in v]
+    if isinstance(v, tuple): return tuple(_deepcopy(x) for x in v)
+    return v
 
 
 def literal_fraction(mod, e, v):
